@@ -1156,11 +1156,20 @@ func (e *Env) lookupPackageName(name string) (CVal, bool) {
 }
 
 func (e *Env) lookupQualified(pkgName, name string) (CVal, bool) {
-	p := e.fg.g.pkgByName(pkgName)
-	if p == nil {
-		return CVal{}, false
+	// package names are not unique (internal/errors, pkg/server/errors, errors): repository packages first, then the
+	// rest, and the first one that declares the member wins
+	ps := e.fg.g.pkgsByName[pkgName]
+	for pass := 0; pass < 2; pass++ {
+		for _, p := range ps {
+			if strings.HasPrefix(p.Pkg.Path(), repoModule) != (pass == 0) {
+				continue
+			}
+			if v, ok := e.memberVal(p, name); ok {
+				return v, true
+			}
+		}
 	}
-	return e.memberVal(p, name)
+	return CVal{}, false
 }
 
 func (e *Env) memberVal(pkg *ssa.Package, name string) (CVal, bool) {
